@@ -280,9 +280,11 @@ def random_plot_spec(rng, nframes=None):
     names = rng.sample([b'GR  ', b'SP  ', b'CALI', b'ILD ', b'ILM ', b'RHOB', b'NPHI', b'DT  ', b'TENS', b'X1  ', b'A<&B', b'C"\'D', b'Q>  '], nch)
     spec['channels'] = [b'REF '] + names
     curves = []
-    # the reference curve: always present, constant, in scale, no wrap -> one point per plotted frame in every film
-    curves.append({'mnem': b'REF ', 'outp': b'REF ', 'trac': None, 'dest': b'ALL ', 'mode': b'NB  ', 'ledg': 0.0, 'redg': 10.0, 'shape': 'ref'})
-    used = {b'REF '}
+    # the reference curves: channel REF is always present, constant, in scale, never wraps -> exactly one point per plotted
+    # frame; one curve per film so that films with different track layouts both have it
+    for i, (fid, g, dsca) in enumerate(films):
+        curves.append({'mnem': b'RF%d ' % i, 'outp': b'REF ', 'trac': None, 'dest': fid, 'mode': b'NB  ', 'ledg': 0.0, 'redg': 10.0, 'shape': 'ref'})
+    used = {b'REF ', b'RF0 ', b'RF1 '}
     for nm in names:
         for k in range(rng.choice([1, 1, 1, 2])):
             mn = nm if k == 0 else (nm[:3] + b'B')
